@@ -156,7 +156,7 @@ def recorded_condition(year, lname, site):
     return None
 
 
-SOLVER_LABELS = ('internal-assertion', 'abort-only', 'no-internal-error', 'propagated-exception', 'subset')
+SOLVER_LABELS = ('internal-assertion', 'abort-only', 'no-internal-error', 'propagated-exception', 'retried-only-once', 'subset')
 
 
 def solver_side(tier, seed):
